@@ -435,6 +435,32 @@ var c20 = Register("C20", "C20.call", func(a c20Args) *Violation {
 	if earlier != earlierCopy {
 		return violf("%s changed a string returned earlier by String(): %q became %q", c.String(), earlierCopy, earlier)
 	}
+	// "a deterministic function of the arguments and DefaultRoundingMode": the same call made under another value of
+	// the variable in between must not change what it returns under this one (a result remembered without the mode)
+	if !p1 {
+		d128.DefaultRoundingMode = d128.RoundingMode((int(a.Default) + 1 + int(hashString(c.Op)%5)) % 6)
+		_, _, _ = c.exec()
+		d128.DefaultRoundingMode = d128.RoundingMode(a.Default)
+		out3, p3, _ := c.exec()
+		if p3 || strings.Join(out1, "\x00") != strings.Join(out3, "\x00") {
+			return violf("%s under DefaultRoundingMode=%d gave %v, and %v (panic %v) after the same call had been made under another DefaultRoundingMode", c.String(), a.Default, out1, out3, p3)
+		}
+		// the other direction: the answer given right after the call was made under another mode (out3 above came
+		// after the call under that mode) must still be the answer once an unrelated call of the same entry point
+		// has been made in between (which displaces whatever a last-call memo remembered)
+		other := c
+		other.X, other.Y = D{c.X.Hi, c.X.Lo ^ 0x5a5a}, D{c.Y.Hi ^ 1<<63, c.Y.Lo}
+		other.S, other.T = c.S+"1", c.T+"1"
+		other.J++
+		func() {
+			defer func() { _ = recover() }()
+			_, _, _ = other.exec()
+		}()
+		out4, p4, _ := c.exec()
+		if p4 || strings.Join(out3, "\x00") != strings.Join(out4, "\x00") {
+			return violf("%s under DefaultRoundingMode=%d gave %v right after the same call under another DefaultRoundingMode, and %v (panic %v) once another call had been made in between", c.String(), a.Default, out3, out4, p4)
+		}
+	}
 	st.Class(c.Op)
 	if p1 {
 		st.Class("documented-panic")
@@ -610,8 +636,15 @@ func genFormatString(t *rapid.T) string {
 	return one() + "|" + one()
 }
 
+// forceEntry, when >= 0, makes genCall produce calls of that one entry point.
+var forceEntry = -1
+
 func genCall(t *rapid.T, forConcurrency bool) c20Call {
-	e := c20Entries[ir(t, 0, len(c20Entries)-1, "entry")]
+	ei := ir(t, 0, len(c20Entries)-1, "entry")
+	if forceEntry >= 0 {
+		ei = forceEntry
+	}
+	e := c20Entries[ei]
 	c := c20Call{Op: e.name}
 	c.X, c.Y = genAny(t), genAny(t)
 	if ir(t, 0, 2, "related") == 0 {
@@ -739,8 +772,22 @@ func TestC20_Concurrent(t *testing.T) {
 	runRapid(t, 1500, 60000, func(t *rapid.T) {
 		n := ir(t, 2, 24, "calls")
 		a := c20ConcArgs{Goroutines: ir(t, 2, 16, "goroutines"), Rounds: ir(t, 1, 3, "rounds")}
+		// a third of the lists are bursts: every call goes to the same entry point with different arguments, for
+		// more rounds. State shared between the calls of ONE function (a last-result memo kept in two atomics, a
+		// parsed-spec cache whose pointer escapes its lock) is invisible to the race detector when every access is
+		// atomic or locked, and only mixes up results when different arguments meet in that function at once.
+		burst := ir(t, 0, 2, "burst") == 0
+		if burst {
+			forceEntry = ir(t, 0, len(c20Entries)-1, "burstEntry")
+			a.Rounds = ir(t, 4, 12, "burstRounds")
+			defer func() { forceEntry = -1 }()
+		}
 		for i := 0; i < n; i++ {
 			a.Calls = append(a.Calls, genCall(t, true))
+		}
+		forceEntry = -1
+		if burst {
+			S("C20", "concurrent").Class("burst-on-one-entry-point")
 		}
 		c20conc.Run(t, a)
 	})
